@@ -328,3 +328,87 @@ Example ex_orders :
   /\ snd (step (run (init 10) [EPut c; EPut p]) (ECommit 2 0)) = ROk
   /\ m_chunks (run (init 10) [EPut c; EPut p; ECommit 2 0]) = [c; p].
 Proof. vm_compute. repeat split. Qed.
+
+(* ------------------------------------------------------------------ *)
+(* The executable statement of the property holds on the model's own observations
+   (excluded class, as a decidable hypothesis: histories with table-file additions —
+   the registered finding nbs-addtablefiles:uninitialized-store-skips-refcheck). *)
+From Dolt Require Import C07.Corr.
+
+Definition no_add_tables_b (es : list event) : bool :=
+  forallb (fun e => match e with EAddTables _ => false | _ => true end) es.
+
+Lemma no_add_tables_b_spec es : no_add_tables_b es = true -> no_add_tables es.
+Proof.
+  unfold no_add_tables_b, no_add_tables. rewrite forallb_forall. intros H e He.
+  specialize (H e He). destruct e; try exact I. discriminate.
+Qed.
+
+Lemma find_has s a : Has s a -> exists c, find (fun c => c_addr c =? a) s = Some c /\ In c s /\ c_addr c = a.
+Proof.
+  unfold Has, addrs. induction s as [|c s IH]; cbn [map In find]; [intros []|].
+  intros [H|H].
+  - subst a. rewrite N.eqb_refl. exists c. auto.
+  - destruct (c_addr c =? a) eqn:E.
+    + apply N.eqb_eq in E. exists c. auto.
+    + destruct (IH H) as [c' [H1 [H2 H3]]]. exists c'. auto.
+Qed.
+
+Lemma walk_some fuel s todo seen :
+  Closed s -> (forall a, In a todo -> Has s a) -> walk fuel s todo seen <> None.
+Proof.
+  intros Hc. revert todo seen. induction fuel as [|f IH]; intros todo seen Ht; cbn [walk]; [discriminate|].
+  destruct todo as [|a t]; [discriminate|].
+  destruct (memb a seen).
+  - apply IH. intros b Hb. apply Ht. right. exact Hb.
+  - destruct (find_has s a (Ht a (or_introl eq_refl))) as [c [Hf [Hin Ha]]]. rewrite Hf.
+    apply IH. intros b Hb. apply in_app_or in Hb as [Hb|Hb].
+    + eapply Hc; eauto.
+    + apply Ht. right. exact Hb.
+Qed.
+
+Lemma reach_ok_inv s : Inv s -> reach_ok s = true.
+Proof.
+  intros HI. unfold reach_ok. destruct (m_root s =? 0) eqn:E; [reflexivity|].
+  destruct (walk _ (m_chunks s) [m_root s] []) eqn:W; [reflexivity|].
+  exfalso. eapply walk_some; [apply (i_closed s HI) | | exact W].
+  intros a [Ha|[]]. subst a. destruct (i_root s HI) as [Hz|Hh]; [|exact Hh].
+  apply N.eqb_neq in E. contradiction.
+Qed.
+
+Lemma step_mroot s e :
+  match e with EAddTables _ => False | _ => True end ->
+  (snd (step s e) <> ROk -> match e with EExt _ _ => True | _ => m_root (fst (step s e)) = m_root s end)
+  /\ match e with EPut _ | ERebase => m_root (fst (step s e)) = m_root s | _ => True end.
+Proof.
+  intros Hne. destruct e as [c|current last| |root cs|cs]; try contradiction.
+  - pose proof (rejected_put_noop s c) as H. unfold persisted in H. inversion H. split; auto.
+  - split; [|exact I]. intros Hr. pose proof (rejected_commit_noop s current last Hr) as H.
+    unfold persisted in H. inversion H. reflexivity.
+  - split; [intros _|]; reflexivity.
+  - split; [intros _|]; exact I.
+Qed.
+
+Lemma oracle_from_model s es :
+  Inv s -> no_add_tables es -> oracle_from (m_root s) es (run_obs s es) = true.
+Proof.
+  revert s. induction es as [|e es IH]; intros s HI Hn; [reflexivity|].
+  cbn [run_obs]. destruct (step s e) as [s' r] eqn:Es. cbn [oracle_from e_reach e_res e_mroot].
+  assert (He : match e with EAddTables _ => False | _ => True end) by (apply (Hn e); left; reflexivity).
+  assert (HI' : Inv s') by (replace s' with (fst (step s e)) by (rewrite Es; reflexivity); apply step_inv; assumption).
+  destruct (step_mroot s e He) as [M1 M2]. rewrite Es in M1, M2. cbn [fst snd] in M1, M2.
+  rewrite (reach_ok_inv s' HI'). cbn [andb].
+  rewrite IH; [|exact HI'|intros e' He'; apply Hn; right; exact He']. rewrite andb_true_r.
+  apply andb_true_iff. split.
+  - destruct r; try reflexivity; destruct e; try reflexivity; try contradiction;
+      apply N.eqb_eq; apply M1; discriminate.
+  - destruct e; try reflexivity; try contradiction; apply N.eqb_eq; exact M2.
+Qed.
+
+Theorem oracle_model_obs :
+  forall i : input, no_add_tables_b (i_events i) = true -> oracle i (model_obs i) = true.
+Proof.
+  intros i H. unfold oracle, model_obs.
+  apply (oracle_from_model (init (i_cap i)) (i_events i) (init_inv _)).
+  apply no_add_tables_b_spec. exact H.
+Qed.
